@@ -323,14 +323,18 @@ def case_xoprob(ctx, c):
     ix = g.permutation(len(mch))
     std = g.random() < 0.5
     cm = std and g.random() < 0.3      # positions declared in centimorgans (documented unit option); the oracle keeps Morgans
+    nogroup = g.random() < 0.3      # map left in the user's (arbitrary) row order: auto_group=False is a documented option
+    gkw = dict(auto_group=False) if nogroup else {}
     if cm:
-        gmap = StandardGeneticMap(mch[ix], mph[ix], mge[ix] * 100.0, vrnt_genpos_units="cM")
+        gmap = StandardGeneticMap(mch[ix], mph[ix], mge[ix] * 100.0, vrnt_genpos_units="cM", **gkw)
     else:
-        gmap = StandardGeneticMap(mch[ix], mph[ix], mge[ix]) if std else ExtendedGeneticMap(mch[ix], mph[ix], mph[ix], mge[ix])
+        gmap = StandardGeneticMap(mch[ix], mph[ix], mge[ix], **gkw) if std else ExtendedGeneticMap(mch[ix], mph[ix], mph[ix], mge[ix], **gkw)
     hal = g.random() < 0.5
     fn = HaldaneMapFunction() if hal else KosambiMapFunction()
     nq = len(qch)
     icls = "%s/%s" % ("StandardGeneticMap" if std else "ExtendedGeneticMap", "Haldane" if hal else "Kosambi")
+    if nogroup:
+        icls += "/map rows left ungrouped"
     if cm:
         icls += "/map given in cM"
     if extr:
